@@ -119,6 +119,8 @@ type World struct {
 	resumes   []string
 	nAsserts  int
 	witnessModel map[string]string
+	strVars map[string]*strVarInfo
+	declared map[string]bool
 }
 
 func (w *World) newObj(v Val, t types.Type) *Obj { w.nobj++; return &Obj{v: v, id: w.nobj, typ: t} }
